@@ -79,6 +79,11 @@ def obligations(tier, seed):
                               {'state': state, 'ev': ev, 'cfg': {'peer_as4': False}}, covers=['stepped']))
                 out.append(ob('C01/step/%s/%s/as4-big' % (S.STATE_NAMES[state], ev), 'ob_step',
                               {'state': state, 'ev': ev, 'cfg': {'remote_as': 4200000001}}, covers=['stepped']))
+            if ev == 'open_ok' and state == S.OPENSENT:
+                for sr in (3, 0):
+                    out.append(ob('C01/step/%s/%s/addpath-any-family/sr=%d' % (S.STATE_NAMES[state], ev, sr), 'ob_step',
+                                  {'state': state, 'ev': ev, 'cfg': {'extra_caps': 'addpath-sym', 'addpath_sr': sr}},
+                                  covers=['stepped'], cap=200))
             if ev == 'hdr_marker' and not quick:
                 for pos in (0, 7):
                     out.append(ob('C01/step/%s/%s/pos=%d' % (S.STATE_NAMES[state], ev, pos), 'ob_step',
